@@ -199,14 +199,33 @@ class ValidIdx:
                 if self.param_valid[name] != res:
                     self.param_valid[name] = res
                     changed = True
-            tr = self.F['transition']
-            fa = self.an.get(tr)
             res = True
             n = 0
-            for (site, var, flds, ln) in aggregates(fa, 'framework::SignalTarget'):
-                if var == 'AllExcept':
+            for g in self.prog.crate_fns(FW):
+                if not g.has_body or g.derived:
+                    continue
+                ga = self.an.get(g)
+                for (site, var, flds, ln) in aggregates(ga, 'framework::SignalTarget'):
+                    if var != 'AllExcept':
+                        continue
                     n += 1
-                    if not self.valid(tr, fa, flds.get('0'), site):
+                    v = flds.get('0')
+                    if g in self.F.values():
+                        if not self.valid(g, ga, v, site):
+                            res = False
+                    elif v[0] == 'param':
+                        # built in a helper: the index is a parameter, valid iff every call site passes a valid index
+                        m = 0
+                        for caller in self.F.values():
+                            ca = self.an.get(caller)
+                            for (b, f, args, t) in calls(ca):
+                                if callee_key(f) == g.key:
+                                    m += 1
+                                    if not self.valid(caller, ca, args[v[1] - 1], (b, len(ca.blocks[b]['s']))):
+                                        res = False
+                        if m == 0:
+                            res = False
+                    else:
                         res = False
             if n == 0:
                 res = False
